@@ -444,12 +444,17 @@ xds_decoder(vbi_decoder *vbi, int _class, int type,
 			else
 				r->ratio = 1.0;
 
-			if (memcmp(r, &vbi->prog_info[0].aspect, sizeof(*r)) != 0) {
-				vbi->prog_info[0].aspect = *r;
-				vbi->aspect_source = 3;
+			if (memcmp(r, &pi->aspect, sizeof(*r)) != 0) {
+				pi->aspect = *r;
 
-				e.type = VBI_EVENT_ASPECT;
-				caption_send_event(vbi, &e);
+				/* Only the current program changes
+				   the picture. */
+				if (_class == XDS_CURRENT) {
+					vbi->aspect_source = 3;
+
+					e.type = VBI_EVENT_ASPECT;
+					caption_send_event(vbi, &e);
+				}
 
 				neq = 1;
 			}
